@@ -72,6 +72,9 @@ func loadVocab() {
 		}
 		sort.Strings(vocabData.operators)
 		vocabData.directives = scrape("internal/seclang/directivesmap.gen.go", regexp.MustCompile(`"([a-z0-9_]+)":\s+directive`))
-		vocabData.variables = scrape("internal/variables/variablesmap.gen.go", regexp.MustCompile(`return "([A-Z0-9_]+)"`))
+		vocabData.variables = scrape("internal/variables/variablesmap.gen.go", regexp.MustCompile(`case "([A-Z0-9_]+)":`))
+		if len(vocabData.variables) == 0 {
+			vocabData.variables = scrape("internal/variables/variablesmap.gen.go", regexp.MustCompile(`return "([A-Z0-9_]+)"`))
+		}
 	})
 }
